@@ -194,3 +194,211 @@ pub fn parts() -> Vec<Box<dyn DynPart>> {
         Box::new(Gen::new(C18 { multi_thread: true }, 300, 10_000)),
     ]
 }
+
+// ---------------------------------------------------------------------------------------
+// Part `startup-under-traffic` (E3): "for the life of the node" includes its first moments.  A node that
+// already holds keyspaces in storage starts while its peers keep replicating to it; whatever it accepts in
+// that window must end up in the one set that later lookups return.
+
+pub mod startup {
+    use std::collections::BTreeMap;
+    use std::time::Duration;
+
+    use serde_json::{json, Value};
+
+    use crate::c01::{gen_nodes, gen_op, ks_name, op_json, run_op, Op};
+    use crate::core::{Outcome, Pass, Prop, Src};
+    use crate::e2::{actor_view, store_view};
+    use crate::e3::{self, Layout};
+    use crate::ensure;
+    use crate::registry::{DynPart, Gen};
+
+    #[derive(Debug, Clone)]
+    pub struct Case {
+        pub nodes: Vec<(u8, String)>,
+        pub before: Vec<Op>,
+        pub victim: usize,
+        /// operations issued at the other nodes while the node starts: (sleep ms, extra yields, op)
+        pub during: Vec<(u64, usize, Op)>,
+        /// latency of the storage reads the start performs (keyspace list, metadata of each keyspace)
+        pub read_latency_ms: u64,
+        pub seed: u64,
+    }
+
+    pub struct Startup;
+
+    impl Prop for Startup {
+        type Case = Case;
+
+        fn id(&self) -> &'static str {
+            "C18"
+        }
+
+        fn part(&self) -> &'static str {
+            "startup-under-traffic"
+        }
+
+        fn width(&self) -> usize {
+            120
+        }
+
+        fn shrink_budget(&self) -> usize {
+            400
+        }
+
+        fn breadcrumbs(&self) -> bool {
+            true
+        }
+
+        fn gen(&self, src: &mut Src) -> Case {
+            let nodes = gen_nodes(src, 3);
+            let n = nodes.len();
+            let n_keys = 1 + src.below64(3);
+            let victim = src.below(n);
+            let before = (0..1 + src.below(6)).map(|_| gen_op(src, n, 2, n_keys)).collect();
+            let others: Vec<usize> = (0..n).filter(|i| *i != victim).collect();
+            let mut during = vec![];
+            for _ in 0..1 + src.below(4) {
+                let pick = others[src.below(others.len())];
+                // direct replication to every node (level All = 3) most of the time
+                let level = *src.pick(&[3usize, 3, 3, 0, 1]);
+                let op = match gen_op(src, n, 2, n_keys) {
+                    Op::Put { ks, key, len, .. } => Op::Put { node: pick, ks, key, len, level },
+                    Op::PutMany { ks, keys, len, .. } => Op::PutMany { node: pick, ks, keys, len, level },
+                    Op::Del { ks, key, .. } => Op::Del { node: pick, ks, key, level },
+                    Op::DelMany { ks, keys, .. } => Op::DelMany { node: pick, ks, keys, level },
+                    _ => Op::Put { node: pick, ks: 0, key: 1, len: 3, level },
+                };
+                // the node's start takes 20 ms of simulated time before the extension is created
+                let sleep = match src.weighted(&[4, 1]) {
+                    0 => 20 + src.below64(25),
+                    _ => *src.pick(&[0u64, 10, 19]),
+                };
+                during.push((sleep, src.below(12), op));
+            }
+            let read_latency_ms = *src.pick(&[0u64, 1, 4, 9]);
+            Case { nodes, before, victim, during, read_latency_ms, seed: src.word() }
+        }
+
+        fn run(&self, case: &Case) -> Outcome {
+            e3::sim(case.seed, 70_000_000, BTreeMap::new(), |_net| run(case))
+        }
+
+        fn describe(&self, case: &Case) -> Value {
+            json!({
+                "nodes": case.nodes,
+                "before_the_stop": case.before.iter().map(op_json).collect::<Vec<_>>(),
+                "restarting_node": case.nodes[case.victim].0,
+                "storage_read_latency_ms": case.read_latency_ms,
+                "issued_elsewhere_while_it_starts": case.during.iter().map(|(ms, y, op)| json!({"after_ms": ms, "extra_yields": y, "op": op_json(op)})).collect::<Vec<_>>(),
+            })
+        }
+
+        fn rule(&self) -> &'static str {
+            "2-3 real nodes with the eventual-consistency extension; 1-6 operations fill the cluster, one node is stopped \
+             (between poller cycles) and started again on its storage while 1-4 operations are issued at the other nodes \
+             (mostly level All, i.e. replicated to it directly) at generated instants around the moment its extension \
+             loads the persisted state (the start reaches the load after 20 ms of simulated time; storage answers the \
+             keyspace list and each metadata read 0-9 ms after taking the snapshot; operations start 0-44 ms in plus 0-11 \
+             yields); oracle: once \
+             the start and the operations have returned, for every keyspace the node's storage holds, every entry in \
+             storage (= every operation the node accepted) is in the set that a fresh lookup of the keyspace serialises, \
+             with the same or a newer stamp, and that set holds nothing storage lacks; non-trivial = the node held state \
+             before the restart and accepted >=1 replicated operation during or right after the start"
+        }
+    }
+
+    async fn run(case: &Case) -> Outcome {
+        let repair = Duration::from_secs(30);
+        let layout = Layout { nodes: case.nodes.clone(), repair_interval: repair };
+        let mut nodes = e3::start_cluster(&layout).await;
+        let t0 = tokio::time::Instant::now();
+        for op in &case.before {
+            run_op(&nodes, op).await;
+        }
+        e3::align_after_poller_cycle(t0, repair).await;
+        e3::advance(700).await;
+        let held_before: usize = (0..2).map(|k| nodes[case.victim].store.metadata(&ks_name(k)).len()).sum();
+        let victim = nodes.remove(case.victim);
+        let (id, dc, store) = e3::kill_node(victim).await;
+        let writes_before = store.inner.lock().log.len();
+        store.inner.lock().read_latency_ms = case.read_latency_ms;
+
+        let members = e3::members_of(&case.nodes);
+        let start = e3::start_node(id, &dc, store.restart(), &members, repair);
+        let remap = |n: usize| -> usize {
+            let want = case.nodes[n].0;
+            nodes.iter().position(|x| x.id == want).unwrap_or(0)
+        };
+        let traffic = async {
+            let futs: Vec<_> = case
+                .during
+                .iter()
+                .map(|(ms, yields, op)| {
+                    let mapped = match op.clone() {
+                        Op::Put { node, ks, key, len, level } => Op::Put { node: remap(node), ks, key, len, level },
+                        Op::PutMany { node, ks, keys, len, level } => Op::PutMany { node: remap(node), ks, keys, len, level },
+                        Op::Del { node, ks, key, level } => Op::Del { node: remap(node), ks, key, level },
+                        Op::DelMany { node, ks, keys, level } => Op::DelMany { node: remap(node), ks, keys, level },
+                        o => o,
+                    };
+                    let nodes = &nodes;
+                    async move {
+                        tokio::time::sleep(Duration::from_millis(*ms)).await;
+                        for _ in 0..*yields {
+                            tokio::task::yield_now().await;
+                        }
+                        if std::env::var_os("VP_DEBUG").is_some() {
+                            eprintln!("DEBUG op starts {:?}", mapped);
+                        }
+                        let r = run_op(nodes, &mapped).await;
+                        if std::env::var_os("VP_DEBUG").is_some() {
+                            eprintln!("DEBUG op done {:?}", r);
+                        }
+                    }
+                })
+                .collect();
+            futures::future::join_all(futs).await;
+        };
+        let (fresh, _) = futures::future::join(start, traffic).await;
+        // let handlers that are still running finish (no repair cycle runs within this time)
+        e3::advance(50).await;
+        fresh.store.inner.lock().read_latency_ms = 0;
+
+        let group = fresh.handle.verif_group().clone();
+        let accepted = fresh.store.inner.lock().log.len() - writes_before;
+        for name in fresh.store.keyspace_names() {
+            let set = actor_view(&group, &name).await;
+            let st = store_view(&fresh.store, &name);
+            for (key, t, dead) in st.live.iter().map(|(k, t)| (k, t, false)).chain(st.dead.iter().map(|(k, t)| (k, t, true))) {
+                let now = set.live.get(key).or_else(|| set.dead.get(key));
+                ensure!(
+                    matches!(now, Some(n) if n >= t),
+                    "accepted-operation-missing-from-set",
+                    "node {id}, keyspace {name}: storage holds id {key} ({}) at {:?}, i.e. the node accepted that operation, but the set a fresh lookup returns holds {:?}",
+                    if dead { "tombstone" } else { "live" },
+                    t,
+                    now
+                );
+            }
+            ensure!(set == st, "set-differs-from-storage", "node {id}, keyspace {name}: the keyspace's set {:?} differs from storage {:?}", set, st);
+        }
+        let mut labels = vec![];
+        if accepted > 0 {
+            labels.push("accepted_replication_around_start");
+        }
+        drop(nodes);
+        drop(fresh);
+        Ok(Pass { nontrivial: held_before > 0 && accepted > 0, labels })
+    }
+
+    pub fn parts() -> Vec<Box<dyn DynPart>> {
+        vec![Box::new(Gen::new(Startup, 20_000, 1_000_000))]
+    }
+}
+
+pub fn parts_all() -> Vec<Box<dyn DynPart>> {
+    let mut p = parts();
+    p.extend(startup::parts());
+    p
+}
